@@ -1,5 +1,4 @@
 CONSTANTS
-  Tier = "quick"
   CasesFile = "cases.ndjson"
   SwResetCanCatchField = TRUE
   SwResetExitFieldP = TRUE
